@@ -147,7 +147,8 @@ class RRELNavigation(RRELBase):
     def __repr__(self):
         if self.fixed_name is not None:
             assert not self.consume_name
-            quote = '"' if "'" in self.fixed_name else "'"
+            # double quotes only if the name has a single quote that is not escaped
+            quote = '"' if "'" in self.fixed_name.replace("\\'", "") else "'"
             return quote + self.fixed_name + quote + "~" + self.name
         else:
             return self.name if self.consume_name else "~" + self.name
